@@ -319,7 +319,8 @@ def _arith_real(c, op, a, b):
         elif op == "mul":
             r = a.r * b.r
         else:
-            c.oblige("real.divisor_nonzero", b.r != 0, kind="side")
+            if not (z3.is_rational_value(b.r) and not z3.is_false(z3.simplify(b.r != 0))):
+                c.oblige("real.divisor_nonzero", b.r != 0, kind="side")
             r = a.r / b.r
         r = z3.simplify(r)
         if not z3.is_rational_value(r):
@@ -465,16 +466,16 @@ def fsqrt(x):
     x = SF.lift(x)
     c = cur()
     if c.fmodel == "REAL":
-        if x.minf or not z3.is_false(x.nan):
-            c.oblige("real.operand_finite", _fin(x), kind="side")
-        c.oblige("real.sqrt_nonneg", x.r >= 0, kind="side")
-        s = z3.Real(c.fresh_name("sqrt"))
-        c.axiom(("sqrt", x.r.get_id()), z3.And(s >= 0, s * s == x.r, NINF < s, s < PINF))
-        # reuse the same root for the same argument
-        key = ("sqrtv", x.r.get_id())
+        if x.minf:
+            c.oblige("real.operand_finite", z3.Or(x.nan, z3.And(x.r != PINF, x.r != NINF)), kind="side")
+        key = ("sqrtv", x.r.get_id(), x.nan.get_id())
         if key in c.ghost:
             return c.ghost[key]
-        c.ghost[key] = SF(s)
+        s = z3.Real(c.fresh_name("sqrt"))
+        # exact root of a non-negative argument; NaN for a negative one (as numpy does, with a warning)
+        c.axiom(("sqrt", x.r.get_id()), z3.And(s >= 0, z3.Implies(x.r >= 0, s * s == x.r), NINF < s, s < PINF))
+        nan = z3.simplify(z3.Or(x.nan, x.r < 0))
+        c.ghost[key] = SF(s, nan, False)
         return c.ghost[key]
     f = _uf("sqrt", 1)
     r = f(x.r)
